@@ -81,6 +81,40 @@ fn collect_imports(files: &[SourceFileAst]) -> HashSet<String> {
         .collect()
 }
 
+/// Diagnostics carry no file, and callers render ranges against the entry
+/// file. An error in any other file is therefore reported with its own
+/// `path:line:col` in the message and without a range.
+fn locate_in_file(err: CompilationError, path: &Path, src: &str) -> CompilationError {
+    let CompilationError::Parser { diagnostics } = err else {
+        return err;
+    };
+    let index = line_index::LineIndex::new(src);
+    let mut located = diagnostics::Diagnostics::new();
+    for diagnostic in diagnostics.iter() {
+        let message = match diagnostic
+            .range()
+            .and_then(|range| index.try_line_col(range.start()))
+        {
+            Some(pos) => format!(
+                "{}:{}:{}: {}",
+                path.display(),
+                pos.line + 1,
+                pos.col + 1,
+                diagnostic.message()
+            ),
+            None => format!("{}: {}", path.display(), diagnostic.message()),
+        };
+        located.push(diagnostics::Diagnostic::new(
+            diagnostic.stage().clone(),
+            diagnostic.severity(),
+            message,
+        ));
+    }
+    CompilationError::Parser {
+        diagnostics: located,
+    }
+}
+
 fn load_package(
     package_dir: &Path,
     entry_path: Option<&Path>,
@@ -106,7 +140,7 @@ fn load_package(
         }
         let src = fs::read_to_string(&path)
             .map_err(|err| compile_error(format!("failed to read {}: {}", path.display(), err)))?;
-        let ast = parse_ast_file(&path, &src)?;
+        let ast = parse_ast_file(&path, &src).map_err(|err| locate_in_file(err, &path, &src))?;
         if let Some(existing) = &package_name {
             if &ast.package.0 != existing {
                 return Err(compile_error(format!(
